@@ -195,3 +195,41 @@ fn o_symbolic_kind_get() {
     core::mem::forget(r);
     core::mem::forget(pdu);
 }
+pub fn stub_oid_const<'a, 'b>(value: &'a SnmpOid<'b>) -> Result<String, SnmpError>
+where 'a: 'a, 'b: 'b,
+{
+    let v: Vec<u8> = vec![b'a'; 4];
+    Ok(unsafe { String::from_utf8_unchecked(v) })
+}
+#[kani::proof]
+#[kani::unwind(18)]
+#[kani::stub(alloc::fmt::format, stub_format)]
+#[kani::stub(<std::string::String as std::convert::TryFrom<&crate::ber::SnmpOid<'_>>>::try_from, stub_oid_const)]
+fn p_direct_oid_conststub() {
+    let c: [u8; 4] = kani::any();
+    let value = SnmpValue::Oid(oid(&c));
+    let r = (&value).into_pyobject(py());
+    assert!(r.is_ok());
+    core::mem::forget(r);
+    core::mem::forget(value);
+}
+pub fn stub_oid_len<'a, 'b>(value: &'a SnmpOid<'b>) -> Result<String, SnmpError>
+where 'a: 'a, 'b: 'b,
+{
+    let n = value.0.len();
+    let mut v: Vec<u8> = vec![b'a'; 4];
+    v[0] = b'a' + (n as u8 & 15);
+    Ok(unsafe { String::from_utf8_unchecked(v) })
+}
+#[kani::proof]
+#[kani::unwind(18)]
+#[kani::stub(alloc::fmt::format, stub_format)]
+#[kani::stub(<std::string::String as std::convert::TryFrom<&crate::ber::SnmpOid<'_>>>::try_from, stub_oid_len)]
+fn q_direct_oid_lenstub() {
+    let c: [u8; 4] = kani::any();
+    let value = SnmpValue::Oid(oid(&c));
+    let r = (&value).into_pyobject(py());
+    assert!(r.is_ok());
+    core::mem::forget(r);
+    core::mem::forget(value);
+}
